@@ -17,9 +17,16 @@ Representation choices (all observable behaviour is tied to the Rust by the harn
   prints them sorted.
 * Recursion (`propagate_counts`, `look_for_circuit`, `unblock`) is fuelled by recursion depth;
   running out of fuel is `diverge`.
+* Names: the records (`NRec`, `LineItem.file`) carry the name BYTES of the file (NUL padding
+  stripped); `read_string` decodes them with `String::from_utf8_lossy` (/repo 7f9b2b3; before, they
+  were passed through `from_utf8_unchecked`), which is `Lcov.utf8Lossy`: `buildStep` stores the
+  decoded function and file names, `takeLines` compares the decoded file name of a LINES record
+  with the decoded file name of the function (two different ill-formed byte strings can decode to
+  the same name). A name is empty iff its bytes are.
 Core Lean only.
 -/
 import GrcovModel.Merge
+import GrcovModel.Lcov
 namespace Grcov.Gcno
 open Grcov AList
 
@@ -164,7 +171,7 @@ def addArc (f : Func) (src dst flags : Nat) : Outcome Func :=
 
 inductive LineItem where
   | line (n : Nat)          -- a non-zero line number
-  | file (name : Bytes)     -- `0` followed by a string; the empty string ends the record
+  | file (name : Bytes)     -- `0` followed by a string (its bytes); the empty string ends the record
 deriving DecidableEq, Repr
 
 inductive NRec where
@@ -188,7 +195,7 @@ def takeLines (version : Nat) (f : Func) : Bool → List LineItem → Block → 
       takeLines version f mt rest
         { b with lines := b.lines ++ [n], lineMax := if n > b.lineMax then n else b.lineMax }
   | _, .file nm :: rest, b =>
-    if nm = [] then b else takeLines version f (decide (nm = f.fileName)) rest b
+    if nm = [] then b else takeLines version f (decide (Lcov.utf8Lossy nm = f.fileName)) rest b
 
 def replaceLast {α : Type} : List α → α → List α
   | [], _ => []
@@ -204,7 +211,8 @@ def buildStep (g : Notes) (r : NRec) : Outcome Notes :=
   | .func ident ls cs name file st en =>
     ok { g with funcs := g.funcs ++ [{ ident := ident, startLine := st, endLine := en,
                                         lineChecksum := ls, cfgChecksum := cs,
-                                        fileName := file, name := name }] }
+                                        fileName := Lcov.utf8Lossy file,
+                                        name := Lcov.utf8Lossy name }] }
   | .blocks n =>
     match g.funcs.getLast? with
     | none => ok g
